@@ -1,10 +1,15 @@
 """C19 -- coroutine storage policies give every frame exclusive, correctly freed memory.
 
-spec/Storage/Storage.tla (one module, the policy is a constant) is checked exhaustively per policy
-(all create/complete sequences of three frame-size classes) and for two threads on one
+spec/Storage/Storage.tla (one module; the policy and its initial size parameter are chosen in the initial
+state) is checked exhaustively for every policy (all create/complete sequences of three frame-size
+classes, overlapping lifetimes where the policy permits them) and for two threads on one
 reusable_storage_mtsafe (scheduling points: the atomic operations on _busy; in a second configuration
 also every operator new/delete call of the storage).  Every edge of every state graph is replayed on
-the real policies by harness/storage_replay.cpp."""
+the real policies by harness/storage_replay.cpp (quick: smaller bounds, no sanitizers; thorough: deeper
+bounds, ASan/UBSan -- the replayer's arena poisons everything outside the requested block sizes).
+
+Storage_<policy>.cfg are single-policy configurations for running TLC by hand; the check uses
+Storage_seq.cfg (all policies), Storage_mt2.cfg and Storage_mt2alloc.cfg."""
 import json
 import os
 import re
